@@ -208,6 +208,7 @@ func C12(c *core.Ctx) {
 		c.Decide(fedAll, "R12.1", "signer-covers-all-buffers:"+tn, p.Pos(cs.Pos()), "every buffer of the covered wire is written to the hash", tn+".ComputeSigValue does not feed every buffer of the covered wire to its hash (multi-buffer packets are signed over a subset of the signed portion)")
 	}
 	c.Floor("R12.1", "Signer implementations in std/security", nS, 7)
+	c12SignatureOwnStorage(c)
 
 	// ---- validators
 	valTypes := map[int64]string{}
@@ -876,4 +877,72 @@ func astAssignedSelectors(fd *ast.FuncDecl, obj string, out map[string]bool) {
 		}
 		return true
 	})
+}
+
+// c12SignatureOwnStorage — R12.11 "the matching validator accepts it": the packet builders
+// place the slice a signer returns into the packet's wire without copying it. A signature
+// value therefore lives in storage made for that call: the result of ComputeSigValue does not
+// trace to a field of the signer (a scratch buffer handed to Sum / append and reused) — the
+// next packet signed by the same signer would overwrite the signature of the previous one,
+// which is still held (queued, cached, being validated).
+func c12SignatureOwnStorage(c *core.Ctx) {
+	p := c.P
+	n, bad := 0, ""
+	for _, fn := range p.FuncsIn(core.ModPath + "/std/security") {
+		if fn.Name() != "ComputeSigValue" || fn.Signature.Recv() == nil || fn.Blocks == nil || strings.HasSuffix(p.File(fn.Pos()), "_test.go") {
+			continue
+		}
+		n++
+		core.InstrsDeep(fn, func(in ssa.Instruction) {
+			r, ok := in.(*ssa.Return)
+			if !ok || len(r.Results) == 0 || in.Parent() != fn {
+				return
+			}
+			seen := map[ssa.Value]bool{}
+			var walk func(v ssa.Value, d int)
+			walk = func(v ssa.Value, d int) {
+				v = core.Strip(v)
+				if v == nil || seen[v] || d > 8 {
+					return
+				}
+				seen[v] = true
+				switch x := v.(type) {
+				case *ssa.Phi:
+					for _, e := range x.Edges {
+						walk(e, d+1)
+					}
+				case *ssa.Slice:
+					walk(x.X, d+1)
+				case *ssa.Extract:
+					walk(x.Tuple, d+1)
+				case *ssa.Call:
+					// Sum(b) and append(b, …) extend their first argument
+					if x.Call.IsInvoke() && x.Call.Method.Name() == "Sum" && len(x.Call.Args) == 1 {
+						walk(x.Call.Args[0], d+1)
+						return
+					}
+					if b, isB := x.Call.Value.(*ssa.Builtin); isB && b.Name() == "append" {
+						walk(x.Call.Args[0], d+1)
+						return
+					}
+					if g := x.Call.StaticCallee(); g != nil && g.Blocks != nil && strings.HasPrefix(core.PkgPathOf(g), core.ModPath) {
+						core.Instrs(g, func(ri ssa.Instruction) {
+							if rr, okR := ri.(*ssa.Return); okR && len(rr.Results) > 0 && ri.Block() != g.Recover {
+								walk(rr.Results[0], d+1)
+							}
+						})
+					}
+				default:
+					if _, path := core.FieldPath(v); len(path) > 0 {
+						if _, isSl := v.Type().Underlying().(*types.Slice); isSl {
+							bad = fmt.Sprintf("%s returns storage of its field %s (at %s)", core.FuncName(fn), strings.Join(path, "."), c.Pos(in))
+						}
+					}
+				}
+			}
+			walk(r.Results[0], 0)
+		})
+	}
+	c.Decide(bad == "", "R12.11", "signature-value-has-storage-of-its-own", "-", fmt.Sprintf("%d signers, none returns a signature that lives in a field of the signer", n), "a signer returns its signature value in storage it keeps and reuses ("+bad+"): MakeData / MakeInterest place that slice in the packet without copying, so signing the next packet overwrites the signature of the previous one — an untampered packet that is still held is then rejected by the matching validator")
+	c.Floor("R12.11", "ComputeSigValue implementations in std/security", n, 6)
 }
